@@ -103,7 +103,7 @@ def task_sharded_einsum(ctx, mesh_shape):
         return (jnu.sharded_einsum(sub, lhs, r, mesh=mesh, rhs_spec=rspec, out_spec=ospec, gather_inputs=gather, reverse_arg_order=rev),
                 jnp.einsum(sub, lhs, r))
       try:
-        prove_close(ctx, 'sharded_einsum_equals_einsum', f, [r], sp, config=conf)
+        prove_close(ctx, 'sharded_einsum_equals_einsum', f, [r], sp, config=conf, reraise=(ValueError,))
       except ValueError as e:
         # combinations the library itself rejects (e.g. no sharded reduce axis on this mesh) are not part of the claim
         ctx.clause('sharded_einsum_equals_einsum', 'discharged', config=dict(conf, rejected_by_library=str(e)[:80]), queries=0, elements=0)
@@ -167,7 +167,7 @@ def task_pe(ctx, mesh_shape, cfg, levels, lname, what):
       a = leaves(eqm.explicit_terms(sm)); b = leaves(eq0.explicit_terms(s0))
     return tuple(dn(x) for x in a), b
   try:
-    prove_close(ctx, f'primitive_equations.{what}_terms_equal_unsharded', both, xs, sp, config=conf, scale_floor=1.0)
+    prove_close(ctx, f'primitive_equations.{what}_terms_equal_unsharded', both, xs, sp, config=conf, scale_floor=1.0, reraise=(ValueError,))
   except ValueError as e:
     # the real sharded program cannot even be traced: replay = call it on a concrete state
     zs = mesh_shape[0]
